@@ -233,7 +233,7 @@ def parse_oracle(text):
     for tok in tokenize.generate_tokens(io.StringIO(text).readline):
       if tok[0] == tokenize.COMMENT:
         comments.append(tok[1])
-  except (tokenize.TokenError, SyntaxError):
+  except (tokenize.TokenError, SyntaxError, ValueError):
     pass
   return tree.body, comments
 
